@@ -204,7 +204,8 @@ def validate_traces(run, items):
 def gen(run):
     thorough = run.tier == "thorough"
     # (family, MaxLen for which requests are issued at every position, MaxLen for lexing + opening only)
-    plan = [("chars", 2 if not thorough else 3, 3 if not thorough else 4), ("lexemes", 2 if not thorough else 3, 2 if not thorough else 3)]
+    plan = [("chars", 2 if not thorough else 3, 3 if not thorough else 4), ("lexemes", 2 if not thorough else 3, 2 if not thorough else 3),
+            ("comments", 3 if not thorough else 4, 4 if not thorough else 5)]
     cases = []
     texts = {}
     if os.environ.get("C06_ONLY"):
